@@ -218,13 +218,14 @@ package netflow9
 //@   ensures [key] (len(addr) == 4 || len(addr) == 16) ==> result1 == fnvKey9(addr, id)   // the map key is FNV-1 32 of the address octets followed by the big-endian id
 //@   ensures [trusted.key] !(len(addr) == 4 || len(addr) == 16) ==> result1 == fnvKey9(addr, id)   // other address lengths do not occur (net.UDPAddr.IP has 4 or 16 octets)
 //@   ensures [shard] result == m.arr[m.off + result1 % 32]
+//@   aliases result m[result1 % 32]
 
 //@ func (*MemCache).insert
 //@   names m id addr tr shard key
 //@   requires m != nil && wellFormed9(m)
 //@   ensures wellFormed9(m) && len(m) == old(len(m))
-//@   ensures [trusted.view] cacheHas9(m, addr, id) && cacheGet9(m, addr, id) == tr
-//@   ensures [trusted.frame] forall a2 net.IP, i2 uint16 :: fnvKey9(a2, i2) != fnvKey9(addr, id) ==> (cacheHas9(m, a2, i2) == old(cacheHas9(m, a2, i2)) && cacheGet9(m, a2, i2) == old(cacheGet9(m, a2, i2)))
+//@   ensures [view] cacheHas9(m, addr, id) && cacheGet9(m, addr, id) == tr
+//@   ensures [frame] forall a2 net.IP, i2 uint16 :: fnvKey9(a2, i2) != fnvKey9(addr, id) ==> (cacheHas9(m, a2, i2) == old(cacheHas9(m, a2, i2)) && cacheGet9(m, a2, i2) == old(cacheGet9(m, a2, i2)))
 //@   modifies contents(m)
 
 //@ func (*MemCache).retrieve
